@@ -1,5 +1,5 @@
 (** * C05 — Parsing keeps declared data and completes ambient/solar production exactly *)
-From Cteepbd Require Import Model.Components Proofs.NormFacts Proofs.DataEquiv Proofs.CompleteIdem Proofs.NormIdem.
+From Cteepbd Require Import Model.Components Proofs.NormFacts Proofs.DataEquiv Proofs.CompleteIdem Proofs.NormIdem Proofs.CompleteWhole.
 From Coq Require Import Permutation.
 Open Scope Qc_scope.
 
@@ -77,6 +77,26 @@ Proof. exact normalize_idempotent. Qed.
 Theorem C05_read_components_are_normalized : forall s c, Parse.parse_components s = Parse.POk c -> normalize c = Ok c.
 Proof. exact parsed_components_are_normalized. Qed.
 
+(** end to end, through the whole normalisation (both completion passes, the reassignment of auxiliary energy, the
+    sort): in the normalised list the production of an on-site thermal carrier attributed to system [i] adds up, at every
+    step, to the production declared for that system plus what the completion adds for it ... *)
+Theorem C05_normalized_production : forall data d cr src i t, normalize_data data = Ok d ->
+  source_of_carrier cr = Some src ->
+  sum_at (prod_of (filter (has_carrier cr) d) i) t
+  = sum_at (prod_of (filter (has_carrier cr) data) i) t + completed_at src (filter (has_carrier cr) data) i t.
+Proof. intros data d cr src i t H S. exact (normalized_production data d H cr src i t S). Qed.
+
+(** ... which is max(0, use - declared production) of that same system at that step (a system without use of the carrier
+    gets nothing: C05_no_use_no_completion) *)
+Theorem C05_completed_value : forall n env i src t, wf n env -> (t < n)%nat -> used_of env i <> [] -> prod_of env i <> [] ->
+  completed_at src env i t = qmax 0 (sum_at (used_of env i) t - sum_at (prod_of env i) t).
+Proof. exact completed_with_production. Qed.
+
+Theorem C05_completed_value_without_production : forall n env i src t, wf n env -> (t < n)%nat -> used_of env i <> [] ->
+  prod_of env i = [] -> Forall (fun e => Forall (fun x => 0 <= x) (e_vals e)) (used_of env i) ->
+  completed_at src env i t = sum_at (used_of env i) t.
+Proof. exact completed_without_production. Qed.
+
 Print Assumptions C05_keeps.
 Print Assumptions C05_completion_twice_changes_nothing.
 Print Assumptions C05_keeps_meta_needs.
@@ -88,3 +108,6 @@ Print Assumptions C05_sort_perm.
 Print Assumptions C05_sort_stable.
 Print Assumptions C05_normalize_idempotent.
 Print Assumptions C05_read_components_are_normalized.
+Print Assumptions C05_normalized_production.
+Print Assumptions C05_completed_value.
+Print Assumptions C05_completed_value_without_production.
